@@ -1,10 +1,11 @@
 """C12 - connection pools keep exact accounting and close what they open (spec/Pool.tla)."""
-from checks import _pool
+from checks import _pool, _poolv12
 
 META = {
     "property_id": "C12",
     "engine": "Pool",
-    "technique": "TLA+ spec of the v3+ HostConnection pool (borrow / send / respond / timeout-orphaning / connection failure / "
+    "technique": "TLA+ specs of both pools (PoolV12.tla: the v1/v2 HostConnectionPool with its copy-on-write connection list, "
+                 "creation / replacement tasks, trashing and shutdown; Pool.tla:) the v3+ HostConnection pool (borrow / send / respond / timeout-orphaning / connection failure / "
                  "_replace task in its four phases / shutdown in its three phases) checked exhaustively by TLC; every edge of "
                  "the state graph replayed into the real HostConnection/Connection/ResponseFuture under DetSched, plus recorded "
                  "random runs validated against the spec (Trace_Pool)",
@@ -26,8 +27,12 @@ META = {
 
 
 def run(ctx):
-    _pool.run(ctx, "C12")
+    _pool.run(ctx, "C12")          # v3+ pool (HostConnection), spec/Pool.tla
+    _poolv12.run(ctx)              # v1/v2 pool (HostConnectionPool), spec/PoolV12.tla
 
 
 def replay(ctx, obj):
-    _pool.replay(ctx, "C12", obj)
+    if obj.get("kind") == "walk-v12":
+        _poolv12.replay(ctx, obj)
+    else:
+        _pool.replay(ctx, "C12", obj)
